@@ -30,6 +30,7 @@ CFG_B = {"loop": 25, "rec": 400, "stack": 700}  # recursion is stopped by the st
 CFG_LONG = {"loop": 25, "rec": 24, "stack": 512}
 D0 = [1, 0, False]
 LONG_N = 200
+ALPHA_FULL = 2203       # number of entry plans in AlphaFull (MCHostVmHist.tla)
 TRACE_CHUNK = 40000     # recorded executions per TLC trace-validation run
 
 
@@ -52,6 +53,9 @@ def call_next(k, sym, i):
             return f"__reenter(E{k}L{n});"
         if rt == "renew":
             return f"__renew(E{k}L{n});"
+        if rt == "evalfn":
+            args = ", ".join(str(10 + j) for j in range(argc_of(n)))
+            return f"eval('E{k}L{n}({args});');"
         raise vlib.ToolError(f"unknown route {rt}")
     args = ", ".join(str(10 + j) for j in range(argc_of(n)))
     return f"E{k}L{n}({args});"
@@ -213,7 +217,7 @@ def classify(sym, nested):
 def signature(where, sym, what):
     """known-finding key: where the imbalance shows + entry kind + completion kind + catch-site class"""
     if sym["ek"].startswith("extra:"):
-        return {"where": where, "entry": sym["ek"], "step": sym["ck"], "what": what}
+        return sig_str({"where": where, "entry": sym["ek"], "step": sym["ck"], "what": what})
     nested = where == "nested-exit"
     comp, site = classify(sym, nested)
     entry = sym["ek"]
@@ -221,21 +225,41 @@ def signature(where, sym, what):
         entry = "nested-construct" if sym["rt"] == "renew" else "nested-call"
     elif entry == "jobs" and comp == "throw":
         comp = "normal"                                     # a throwing job rejects its promise; run_jobs returns Ok
-    return {"where": where, "entry": entry, "completion": comp, "site": site, "what": what}
+    return sig_str({"where": where, "entry": entry, "completion": comp, "site": site, "what": what})
+
+
+def sig_str(d):
+    """signatures are strings (vlib.Check uses them as dictionary keys)"""
+    return " ".join(f"{k}={d[k]}" for k in ("where", "entry", "step", "completion", "site", "what") if k in d)
 
 
 # ------------------------------------------------------------------------------------------ TLC
 
-def enumerate_histories(cfgname, ck, workers=6, simulate=None, depth=None, tseed=None, coverage=False):
-    hists = []
+def enumerate_histories(cfgname, ck, workers=6, simulate=None, depth=None, tseed=None, maxlen=None, alpha=None):
+    """Runs the history driver; returns the emitted histories (deduplicated). In exhaustive mode the number of
+    emitted histories must be |A| + |A|^2 + ... + |A|^maxlen for the alphabet size |A| = alpha of the config
+    (lines printed by concurrent TLC workers can interleave and get lost; then the run is repeated with one
+    worker)."""
+    for w in ([workers, 1] if simulate is None else [1]):
+        seen = {}
 
-    def on(tag, obj):
-        if tag == "HIST":
-            hists.append(obj)
+        def on(tag, obj):
+            if tag == "HIST":
+                seen.setdefault(json.dumps([x["sym"] for x in obj], sort_keys=True), obj)
 
-    r = vlib.run_tlc(os.path.join(SPECDIR, "MCHostVmHist.tla"), cfgname, workers=workers, timeout=1500,
-                     on_tagged=on, simulate=simulate, depth=depth, tseed=tseed, coverage=coverage)
-    vlib.tlc_must_pass(r, "HostVmHist/" + cfgname)
+        r = vlib.run_tlc(os.path.join(SPECDIR, "MCHostVmHist.tla"), cfgname, workers=w, timeout=1500,
+                         on_tagged=on, simulate=simulate, depth=depth, tseed=tseed)
+        vlib.tlc_must_pass(r, "HostVmHist/" + cfgname)
+        hists = list(seen.values())
+        if simulate is not None:
+            break
+        n1 = alpha if alpha is not None else sum(1 for h in hists if len(h) == 1)
+        want = sum(n1 ** k for k in range(1, maxlen + 1))
+        if len(hists) == want:
+            break
+        vlib.log(f"[C07] {cfgname}: {len(hists)} histories read, {want} expected - repeating with one worker")
+    else:
+        raise vlib.ToolError(f"{cfgname}: history emission incomplete ({len(hists)} of {want})")
     ck.cov["states"] = ck.cov.get("states", 0) + r["distinct"]
     ck.cov["transitions"] = ck.cov.get("transitions", 0) + r["states"]
     ck.cov.setdefault("checker_cmd", r["cmd"])
@@ -253,7 +277,10 @@ def validate_traces(ck, execs):
             # one execution per top-level entry, depths relative to what the entry found
             base_f, base_s, base_p = evs[0]["f"] - 1, evs[0]["s"], evs[0]["p"]
             for e in evs:
-                f.write(json.dumps({"e": e["e"], "k": e["k"], "n": e["n"], "f": e["f"] - base_f, "s": e["s"] - base_s,
+                # nested events keep the absolute stack length: inside a generator it is the length of the
+                # generator's private stack, unrelated to the entry's base
+                f.write(json.dumps({"e": e["e"], "k": e["k"], "n": e["n"], "f": e["f"] - base_f,
+                                    "s": e["s"] - base_s if e["n"] == 0 else e["s"],
                                     "p": e["p"] != base_p, "c": e.get("c", ""), "x": xid}) + "\n")
                 n += 1
             f.write(json.dumps({"e": "reset", "k": "", "n": 0, "f": 0, "s": 0, "p": False, "c": "", "x": xid}) + "\n")
@@ -578,11 +605,13 @@ def run(tier, replay=None):
         check_coverage(tlc_coverage("MCHostVmHist.tla", "MCHostVmHist_single.cfg"), ck, "history")
 
     # ---- mode A: histories enumerated by TLC
-    cfgs = ["MCHostVmHist_single.cfg", "MCHostVmHist_tiny3.cfg"] if not thorough else \
-           ["MCHostVmHist_single.cfg", "MCHostVmHist_quick.cfg", "MCHostVmHist_mid.cfg", "MCHostVmHist_tiny.cfg"]
+    # (config, history length, size of its alphabet in MCHostVmHist.tla)
+    cfgs = [("MCHostVmHist_single.cfg", 1, ALPHA_FULL), ("MCHostVmHist_tiny3.cfg", 3, 8)] if not thorough else \
+           [("MCHostVmHist_single.cfg", 1, ALPHA_FULL), ("MCHostVmHist_quick.cfg", 3, 23), ("MCHostVmHist_mid.cfg", 2, 68),
+            ("MCHostVmHist_tiny.cfg", 5, 8)]
     hists, seen = [], set()
-    for c in cfgs:
-        hs, r = enumerate_histories(c, ck)
+    for c, maxlen, alpha in cfgs:
+        hs, r = enumerate_histories(c, ck, maxlen=maxlen, alpha=alpha)
         vlib.log(f"[C07] {c}: {len(hs)} histories, {r['distinct']} states, {r['wall']:.0f}s")
         for h in hs:
             key = json.dumps([x["sym"] for x in h], sort_keys=True)
@@ -590,7 +619,7 @@ def run(tier, replay=None):
                 seen.add(key)
                 hists.append(h)
     # seeded long random histories over the full alphabet
-    hs, _ = enumerate_histories("MCHostVmHist_sim.cfg", ck, workers=1, simulate=(60 if thorough else 12), depth=260, tseed=vlib.seed())
+    hs, _ = enumerate_histories("MCHostVmHist_sim.cfg", ck, workers=1, simulate=(60 if thorough else 12), depth=230, tseed=vlib.seed())
     longest = {}
     for h in hs:
         key = json.dumps([x["sym"] for x in h], sort_keys=True)
@@ -606,35 +635,40 @@ def run(tier, replay=None):
         raise vlib.ToolError(f"vacuity guard: only {len(hists)} histories enumerated")
 
     judge = Judge(ck, binary)
-    scen, refs, owners, ref_owners = [], {}, {}, {}
-    for i, h in enumerate(hists):
-        sc, ow = build_scenario(i, h, CFG_A)
-        scen.append(sc)
-        owners[i] = ow
-        ok_idx = [j for j, x in enumerate(h) if x["c"] == "return"]
-        if len(ok_idx) != len(h) and ok_idx:
-            rs, row = build_scenario(f"r{i}", h, CFG_A, only=set(ok_idx))
-            scen.append(rs)
-            refs[i] = f"r{i}"
-            ref_owners[i] = row
-    # singles with a recursion that is stopped by the stack-size limit instead (configuration B)
-    bidx = {}
-    for i, h in enumerate(hists):
-        if len(h) == 1 and h[0]["sym"]["ck"] == "limit" and h[0]["sym"]["lk"] == "rec":
-            sc, ow = build_scenario(f"b{i}", h, CFG_B)
+    nscen = 0
+    BATCH = 8000
+    for b0 in range(0, len(hists), BATCH):
+        scen, refs, owners, ref_owners, bidx = [], {}, {}, {}, {}
+        for i in range(b0, min(b0 + BATCH, len(hists))):
+            h = hists[i]
+            sc, ow = build_scenario(i, h, CFG_A)
             scen.append(sc)
-            bidx[i] = (f"b{i}", ow)
-    res = judge.run(scen)
-    bysid = {s["id"]: s for s in scen}
-    for i, h in enumerate(hists):
-        ref = res.get(refs[i]) if i in refs else None
-        judge.judge(i, h, CFG_A, res.get(i), owners[i], bysid[i], ref, ref_owners.get(i))
-        if i in (0, 57, 1200):
-            ck.sample({"history": [x["sym"] for x in h], "expected": [{"c": x["c"], "out": x["out"]} for x in h],
-                       "steps": bysid[i]["steps"][1:], "observed": [(s["c"], s["d"]) for s in (res.get(i) or {}).get("steps", [])][1:]})
-        if i in bidx:
-            sid, ow = bidx[i]
-            judge.judge(sid, h, CFG_B, res.get(sid), ow, bysid[sid])
+            owners[i] = ow
+            ok_idx = [j for j, x in enumerate(h) if x["c"] == "return"]
+            if len(ok_idx) != len(h) and ok_idx:
+                rs, row = build_scenario(f"r{i}", h, CFG_A, only=set(ok_idx))
+                scen.append(rs)
+                refs[i] = f"r{i}"
+                ref_owners[i] = row
+            # single entries with a recursion that is stopped by the stack-size limit instead (configuration B)
+            if len(h) == 1 and h[0]["sym"]["ck"] == "limit" and h[0]["sym"]["lk"] == "rec":
+                sc, ow = build_scenario(f"b{i}", h, CFG_B)
+                scen.append(sc)
+                bidx[i] = (f"b{i}", ow)
+        res = judge.run(scen)
+        nscen += len(scen)
+        bysid = {s["id"]: s for s in scen}
+        for i in range(b0, min(b0 + BATCH, len(hists))):
+            h = hists[i]
+            ref = res.get(refs[i]) if i in refs else None
+            judge.judge(i, h, CFG_A, res.get(i), owners[i], bysid[i], ref, ref_owners.get(i))
+            if i in (0, 57, 1200):
+                ck.sample({"history": [x["sym"] for x in h], "expected": [{"c": x["c"], "out": x["out"]} for x in h],
+                           "steps": bysid[i]["steps"][1:], "observed": [(s["c"], s["d"]) for s in (res.get(i) or {}).get("steps", [])][1:]})
+            if i in bidx:
+                sid, ow = bidx[i]
+                judge.judge(sid, h, CFG_B, res.get(sid), ow, bysid[sid])
+    scen = range(nscen)
     vlib.log(f"[C07] replayed {len(scen)} scenarios, {ck.cov.get('entries_checked', 0)} entries; validating traces")
     judge.mode_b()
     vlib.log(f"[C07] trace validation: {ck.cov.get('trace_events', 0)} events, {ck.cov.get('traces_rejected', 0)} executions rejected")
